@@ -97,7 +97,13 @@ def run(res, ctx):
                 if c is not None:
                     gen_cfg[fn._takes_config] = c
         cfg_file = scratch.fresh("generated.yaml", yaml.safe_dump(gen_cfg).encode())
-        full_by_cfg = {None: C.batch_real_scan(scratch, sources), "generated": C.batch_real_scan(scratch, sources, config_file=cfg_file)}
+        # a settings section that lacks keys some checks index (here: only the `subprocess` list of shell_injection) makes those checks raise on every call
+        # node; the tester logs the error and goes on with the next check.  What the OTHER checks find on that node is the same with or without the raising
+        # check in the selection (seeded change C05-m8 hoisted the per-check error handler out of the loop: one raising check silenced all later ones)
+        partial_file = scratch.fresh("partial.yaml", yaml.safe_dump({"shell_injection": {"subprocess": ["subprocess.Popen", "subprocess.call", "subprocess.check_output"]}}).encode())
+        cfg_files = {None: None, "generated": cfg_file, "partial": partial_file}
+        full_by_cfg = {None: C.batch_real_scan(scratch, sources), "generated": C.batch_real_scan(scratch, sources, config_file=cfg_file),
+                       "partial": C.batch_real_scan(scratch, sources, config_file=partial_file)}
         full = full_by_cfg[None]
         # group work by selection so each manager construction serves many files
         sels = []
@@ -110,19 +116,22 @@ def run(res, ctx):
         sels.append(("skip_B001", set(), {"B001"}))
         sels.append(("b001_vs_specific", {"B001"}, {"B301"}))
         sels.append(("b001_plugin_vs_specific", {"B001", "B101"}, {"B404"}))
-        for kind, inc, exc, cfg_kind in [(k, i, e, c) for (k, i, e) in sels for c in (None, "generated")]:
+        sels.append(("only_B602_B603", {"B602", "B603"}, set()))
+        sels.append(("skip_B605_B606_B607", set(), {"B605", "B606", "B607"}))
+        sels.append(("only_late_call_checks", {"B602", "B604", "B201", "B301", "B324", "B506"}, set()))
+        for kind, inc, exc, cfg_kind in [(k, i, e, c) for (k, i, e) in sels for c in (None, "generated", "partial")]:
             if inc & exc:
                 continue
             profile = {"include": set(inc), "exclude": set(exc)}
             full = full_by_cfg[cfg_kind]
             try:
-                restricted = C.batch_real_scan(scratch, sources, profile=profile, config_file=cfg_file if cfg_kind else None)
+                restricted = C.batch_real_scan(scratch, sources, profile=profile, config_file=cfg_files[cfg_kind])
             except Exception as e:  # a selection the constructor rejects is not this property's business
                 res.notes.append(f"selection {sorted(inc)}/{sorted(exc)} rejected: {type(e).__name__}")
                 continue
             S = spec_filter(inc, exc, plug, bl, builtin)
             model = None
-            if d is not None:
+            if d is not None and cfg_kind != "partial":     # the model's settings are the generated ones (Props.C06 `configOK`); the partial section is judged by the spec alone
                 reqs = []
                 for s in sources:
                     rq = C.scan_request(s, plugin_cfg=gen_cfg if cfg_kind else None)
@@ -153,12 +162,93 @@ def run(res, ctx):
                     # region of the known finding: the blacklist stops at the first matching rule, so an unselected rule can mask a selected one
                     masked = bool(extra) and not missing and all(f[0] in blids for f in extra) and \
                         all(any(g[0] in blids and g[0] not in S and g[3] == f[3] for g in fu["findings"]) for f in extra)
-                    if masked and agree and model is not None:
+                    if masked and agree and (model is not None or cfg_kind == "partial"):
                         res.known_finding("C05-blacklist-first-match")
                     else:
                         res.violation("findings under a selection differ from the selected findings of the unrestricted run",
                                       {"program": src, "include": sorted(inc), "exclude": sorted(exc), "only_in_restricted": [list(f) for f in extra],
                                        "missing_from_restricted": [list(f) for f in missing]})
+        # ---- the same selections through every carrier the command-line tool reads, alone and split over two of them: `-t/-s`, `tests:/skips:` of a YAML or
+        #      TOML configuration file, `tests/skips` of an INI file, and a selection whose include list is divided between the configuration file and the
+        #      command line / INI file — the parts add up (seeded change C05-m7 intersected `-t` with the configuration file's `tests:`)
+        import json as _j, os as _os, yaml as _y
+        pdir = _os.path.join(scratch.root, "carrier_progs")
+        _os.makedirs(pdir)
+        for i, (src, _) in enumerate(programs):
+            with open(_os.path.join(pdir, "p%02d.py" % i), "w") as fh:
+                fh.write(src)
+
+        def cli_findings(argv):
+            r = C.run_cli(argv + ["-f", "json", "-q", "-r", pdir])
+            if r["exc"] is not None or r["exit"] not in (0, 1):
+                return None, r
+            try:
+                return sorted((_os.path.basename(x["filename"]), x["test_id"], x["line_number"], x["col_offset"]) for x in _j.loads(r["out"])["results"]), r
+            except Exception:
+                return None, r
+
+        base_f, _r = cli_findings([])
+        known_ids = set(plug) | set(bl) | {"B001"}
+
+        def toml_doc(t, k):
+            body = "[tool.bandit]\n"
+            if t:
+                body += "tests = [%s]\n" % ", ".join('"%s"' % x for x in t)
+            if k:
+                body += "skips = [%s]\n" % ", ".join('"%s"' % x for x in k)
+            return body.encode()
+
+        def emit(label, t_cfg, s_cfg, t_flag, s_flag, fmt, flag):
+            argv = []
+            if t_cfg or s_cfg or fmt == "toml":
+                doc = {}
+                if t_cfg:
+                    doc["tests"] = sorted(t_cfg)
+                if s_cfg:
+                    doc["skips"] = sorted(s_cfg)
+                if fmt == "toml":
+                    argv += ["-c", scratch.fresh("pyproject.toml", toml_doc(sorted(t_cfg), sorted(s_cfg)))]
+                elif doc:
+                    argv += ["-c", scratch.fresh("bandit.yaml", _y.safe_dump(doc).encode())]
+            if flag == "cli":
+                if t_flag:
+                    argv += ["-t", ",".join(sorted(t_flag))]
+                if s_flag:
+                    argv += ["-s", ",".join(sorted(s_flag))]
+            elif t_flag or s_flag:
+                ini = "[bandit]\n" + ("tests = %s\n" % ",".join(sorted(t_flag)) if t_flag else "") + ("skips = %s\n" % ",".join(sorted(s_flag)) if s_flag else "")
+                argv += ["--ini", scratch.fresh(".bandit", ini.encode())]
+            return label, argv
+
+        carrier_sels = [(k, i, e) for (k, i, e) in sels if (i | e) <= known_ids and not (i & e) and (i or e)]
+        carrier_sels = carrier_sels if thorough else carrier_sels[:7]
+        carrier_sels += [("two_part_include", {"B101", "B602"}, set()), ("three_part_include", {"B101", "B301", "B404", "B605"}, {"B602"}), ("two_part_skip", set(), {"B101", "B404", "B603"})]
+        for kind, inc, exc in carrier_sels:
+            S = spec_filter(inc, exc, plug, bl, builtin)
+            expect = None if base_f is None else [f for f in base_f if f[1] in S]
+            li, le = sorted(inc), sorted(exc)
+            hi, he = set(li[: (len(li) + 1) // 2]), set(le[: (len(le) + 1) // 2])
+            ems = [emit("cli", (), (), inc, exc, None, "cli"), emit("yaml", inc, exc, (), (), "yaml", None), emit("toml", inc, exc, (), (), "toml", None),
+                   emit("ini", (), (), inc, exc, None, "ini"),
+                   emit("yaml+cli", hi, he, inc - hi, exc - he, "yaml", "cli"), emit("toml+cli", inc - hi, exc - he, hi, he, "toml", "cli"),
+                   emit("yaml+ini", hi, exc, inc - hi, (), "yaml", "ini"), emit("yaml+cli:overlap", inc, he, hi, exc, "yaml", "cli")]
+            for label, argv in ems:
+                got, r = cli_findings(argv)
+                res.case(("carrier", label, tuple(li), tuple(le)), bool(expect))
+                res.count("carrier:" + label)
+                if got is None and not S:
+                    continue        # nothing left to run: rejected ("No tests would be run"), C03/C13's business
+                if got != expect:
+                    # the first-match masking of the blacklist (known finding) can add a finding under a selection; it is judged above, through the API
+                    extra = [f for f in (got or []) if f not in (expect or [])]
+                    missing = [f for f in (expect or []) if f not in (got or [])]
+                    if got is not None and extra and not missing and all(f[1] in blids for f in extra):
+                        res.count("carrier-masked-blacklist-not-judged")
+                        continue
+                    res.violation("a selection given through %s does not report the selected findings of the unrestricted run" % label,
+                                  {"carrier": label, "argv": [a if not a.startswith(scratch.root) else "<scratch>/" + _os.path.basename(a) for a in argv], "include": li, "exclude": le,
+                                   "files": {"p%02d.py" % i: src for i, (src, _) in enumerate(programs)} if len(res.violations) < 2 else "as in the first replay",
+                                   "missing": missing[:10], "extra": extra[:10], "exit": r["exit"], "exc": r["exc"], "stderr": r["err"][-300:]})
         # contradiction must be rejected (exit 2) through the CLI
         p = scratch.fresh("a.py", b"assert x\n")
         for argv in (["-t", "B101", "-s", "B101", p], ["-t", "B101,B102", "-s", "B102", p]):
